@@ -110,7 +110,7 @@ def forward_vjp_2d(rep, fnd, table, records, pid):
     rep.count("forward_vjp_2d_exact_adjoint", n_ok)
 
 
-def compose_inv_vjp2(table, mode, L, J, lh, lw, g0, g1, leaf, wiring):
+def compose_inv_vjp2(table, mode, L, J, lh, lw, g0, g1, leaf, wiring, gr0=None, gr1=None):
     """gradient w.r.t. one leaf of DWTInverse as coded (SFB2D.backward models); [len_leaf x P]"""
     sizes = {}
     ch, cw = lh[J - 1], lw[J - 1]
@@ -124,7 +124,7 @@ def compose_inv_vjp2(table, mode, L, J, lh, lw, g0, g1, leaf, wiring):
         ih, iw, mh, mw = sizes[j]
         Bc, Br = table.sb_impl(mode, mh, L), table.sb_impl(mode, mw, L)
         c0, c1 = dwtlib.mat(Bc, g0), dwtlib.mat(Bc, g1)
-        r0, r1 = dwtlib.mat(Br, g0), dwtlib.mat(Br, g1)
+        r0, r1 = dwtlib.mat(Br, g0 if gr0 is None else gr0), dwtlib.mat(Br, g1 if gr1 is None else gr1)     # (g0, g1): column filters
         if leaf == j:
             out = []
             for b in sorted(wiring["bands"], key=lambda z: z["band"]):
@@ -166,7 +166,15 @@ def inverse_vjp_2d(rep, fnd, table, records, pid):
                     cache[key] = None
                     continue
                 g0, g1 = dwtlib.int_taps(rng, L, 3), dwtlib.int_taps(rng, L, 3)
-                m = pw.DWTInverse(wave=(g0, g1), mode=mode)
+                # every other configuration: the documented 4-tuple with DIFFERENT column and row filters - each grad subset then
+                # meets a backward that has to use each filter on its own axis (a lowpass-only or otherwise specialised backward
+                # path for "this level's highpass needs no gradient" is only distinguishable there)
+                if len(cache) % 2 == 0:
+                    gr0, gr1 = dwtlib.int_taps(rng, L, 3), dwtlib.int_taps(rng, L, 3)
+                    m = pw.DWTInverse(wave=(g0, g1, gr0, gr1), mode=mode)
+                else:
+                    gr0, gr1 = g0, g1
+                    m = pw.DWTInverse(wave=(g0, g1), mode=mode)
                 off, total = _blocks2(lh, lw, J)
                 yl = torch.zeros(total, 1, lh[-1], lw[-1])
                 yl[:off[0][1], 0] = torch.eye(off[0][1]).reshape(-1, lh[-1], lw[-1])
@@ -177,14 +185,14 @@ def inverse_vjp_2d(rep, fnd, table, records, pid):
                     t[off[j][0]:off[j][1], 0] = torch.eye(n).reshape(n, 3, lh[j - 1], lw[j - 1])
                     yh.append(t)
                 Y = m((yl, yh))
-                cache[key] = (m, lh, lw, off, Y[:, 0].reshape(total, -1).numpy().T, tuple(Y.shape[-2:]), g0, g1)
+                cache[key] = (m, lh, lw, off, Y[:, 0].reshape(total, -1).numpy().T, tuple(Y.shape[-2:]), g0, g1, gr0, gr1)
             if cache[key] is None:
                 continue
-            m, lh, lw, off, Y, (oh, ow), g0, g1 = cache[key]
+            m, lh, lw, off, Y, (oh, ow), g0, g1, gr0, gr1 = cache[key]
             P = Y.shape[0]
             sizes = ([H] + lh)[:J] + ([W] + lw)[:J]
             cfg = {"mode": mode, "H": H, "W": W, "L": L, "J": J, "R": R, "odd_any": any(n % 2 for n in sizes)}
-            case = {"api": "DWTInverse.backward", "check": "inverse_vjp_2d", "cfg": cfg}
+            case = {"api": "DWTInverse.backward", "check": "inverse_vjp_2d", "cfg": cfg, "per_axis_filters": gr0 is not g0}
             yl = torch.zeros(P, 1, lh[-1], lw[-1], requires_grad=(0 in R))
             yh = [torch.zeros(P, 1, 3, lh[j - 1], lw[j - 1], requires_grad=(j in R)) for j in range(1, J + 1)]
             y = m((yl, yh))
@@ -228,7 +236,7 @@ def inverse_vjp_2d(rep, fnd, table, records, pid):
             sig = "other"
             try:
                 wiring = next(x for x in records if x.get("kind") == "dwt2.fwd")["wiring"]
-                if dwtlib.eq_int(V, compose_inv_vjp2(table, mode, L, J, lh, lw, g0, g1, k, wiring)):
+                if dwtlib.eq_int(V, compose_inv_vjp2(table, mode, L, J, lh, lw, g0, g1, k, wiring, gr0, gr1)):
                     sig = "equals-impl-model"
             except Exception:   # noqa
                 pass
